@@ -31,7 +31,8 @@ DESCRIPTION = {
         "one set (many unqualified columns over several relations, wildcard over several known tables with disjoint columns, DROP/RENAME "
         "mixes, multi-pair RENAME); each input is observed in H zygotes with different PYTHONHASHSEED (4 quick / 32 thorough, derived "
         "from VERIF_SEED, always including 0) x 2 fresh forks, one with the canonical accessor order and one with a seeded permutation "
-        "with repetitions of all 13 accessors; all canonical answers must agree (modulo subquery_<int>). An input counts as one case; it "
+        "with repetitions of all 13 accessors, plus one *warm-process* world per input in which other scripts (a sibling over the same names, "
+        "the two neighbouring corpus inputs, sometimes the script itself) are analysed first in the same process; all canonical answers must agree (modulo subquery_<int>). An input counts as one case; it "
         "is non-trivial iff its analysis produced >=2 tables or >=2 column paths (so that some set had an order to get wrong)."
     ),
     "real_code": ["all of sqllineage reachable from LineageRunner accessors", "sqlfluff, sqlparse, networkx", "DummyMetaDataProvider"],
@@ -41,8 +42,8 @@ DESCRIPTION = {
         "exceptions are compared by type name",
         "metadata is served by DummyMetaDataProvider built from the dict the tests use (SQLAlchemy-backed providers of the test-suite are not replayed)",
     ],
-    "required_probes": {"quick": ["multi_element_result", "accessor_permuted", "accessor_repeated"],
-                        "thorough": ["multi_element_result", "accessor_permuted", "accessor_repeated"]},
+    "required_probes": {"quick": ["multi_element_result", "accessor_permuted", "accessor_repeated", "warm_process"],
+                        "thorough": ["multi_element_result", "accessor_permuted", "accessor_repeated", "warm_process"]},
 }
 
 _WS = re.compile(r"\s+")
@@ -65,6 +66,9 @@ def observe_one(spec: dict) -> dict:
     from sqllineage.core.metadata.dummy import DummyMetaDataProvider
     from sqllineage.runner import LineageRunner
 
+    # a "warm" process: other inputs were analysed (all accessors) earlier in this very process
+    for pre in spec.get("prelude") or []:
+        observe_one({"input": pre, "prog": list(canon.ACCESSORS)})
     inp = spec["input"]
     kwargs = {"dialect": inp["dialect"], "silent_mode": bool(inp.get("silent"))}
     if inp.get("meta") is not None:
@@ -116,17 +120,24 @@ def judge(inp: dict, worlds: list[dict], observations: list[dict]) -> dict:
             if len(ds) > 1:
                 probes["accessor_repeated"] = 1
     for w, o in zip(worlds[1:], observations[1:]):
+        if w.get("prelude"):
+            probes["warm_process"] = 1
         if w["prog"] != worlds[0]["prog"]:
             probes["accessor_permuted"] = 1
         for a, ds in o["obs"].items():
             if a in ref["obs"] and ds[0] != ref["obs"][a][0] and viol is None:
-                if w["hash_seed"] != worlds[0]["hash_seed"]:
+                if w.get("prelude"):
+                    c = "process_history_dependent"
+                elif w["hash_seed"] != worlds[0]["hash_seed"]:
                     c = "hash_seed_dependent"
                 elif w["prog"] != worlds[0]["prog"]:
                     c = "order_or_fork_dependent"
                 else:
                     c = "fork_dependent"
                 msg = f"accessor {a} differs between (hash seed {worlds[0]['hash_seed']}) and (hash seed {w['hash_seed']})"
+                if w.get("prelude"):
+                    msg = (f"accessor {a} differs between a fresh process and a process that analysed {len(w['prelude'])} other script(s) first "
+                           f"(hash seed {w['hash_seed']}; first prelude script: {norm_sql(w['prelude'][0]['sql'])[:200]})")
                 if "vals" in o and "vals" in ref:
                     msg += f": {json.dumps(ref['vals'].get(a))[:500]} vs {json.dumps(o['vals'].get(a))[:500]}"
                 viol = {"class": c, "accessor": a, "pair": [worlds[0], w], "message": msg}
@@ -136,7 +147,8 @@ def judge(inp: dict, worlds: list[dict], observations: list[dict]) -> dict:
         "verdict": "violation" if viol else "ok",
         "digest": input_id(inp),
         "steps": sum(len(w["prog"]) for w in worlds),
-        "faults": {"hash_seed": len({w["hash_seed"] for w in worlds}), "accessor_reorder": sum(1 for w in worlds[1:] if w["prog"] != worlds[0]["prog"])},
+        "faults": {"hash_seed": len({w["hash_seed"] for w in worlds}), "accessor_reorder": sum(1 for w in worlds[1:] if w["prog"] != worlds[0]["prog"]),
+                   "warm_process": sum(1 for w in worlds if w.get("prelude"))},
         "probes": probes,
         "nontrivial": "multi_element_result" in probes,
         "log_digest": digest([[w["hash_seed"], sorted(o["obs"].items())] for w, o in zip(worlds, observations)]),
@@ -156,7 +168,7 @@ def eval_many(pool, key, specs):
     idx = []
     for si, s in enumerate(specs):
         for wi, w in enumerate(s["worlds"]):
-            jobs.append(job(mod, {"hash_seed": w["hash_seed"]}, [{"input": s["input"], "prog": w["prog"], "want_values": True}], 240.0))
+            jobs.append(job(mod, {"hash_seed": w["hash_seed"]}, [{"input": s["input"], "prog": w["prog"], "prelude": w.get("prelude"), "want_values": True}], 240.0))
             idx.append((si, wi))
     res = pool.run(jobs)
     per: dict[int, list] = {}
@@ -198,7 +210,7 @@ def tpcds_inputs() -> list[dict]:
 
 def risky(g, tag: str) -> dict:
     """Shapes with several equal-rank candidates in one set."""
-    kind = g.choice(["unqualified_many", "wildcard_disjoint", "drop_rename_mix", "multi_rename", "many_tables", "many_targets"])
+    kind = g.choice(["unqualified_many", "wildcard_disjoint", "drop_rename_mix", "multi_rename", "many_tables", "many_targets", "consumption_variants"])
     meta = None
     dialect = g.choice(["ansi", "non-validating"])
     if kind == "unqualified_many":
@@ -234,6 +246,30 @@ def risky(g, tag: str) -> dict:
             y = g.choice([n for n in names + ["e", "f"] if n != x])
             pairs.append(f"{x} TO {y}")
         sql = ";\n".join(pre + ["RENAME TABLE " + ", ".join(pairs)])
+    elif kind == "consumption_variants":
+        # the same definition of a table, consumed downstream in different ways; the sibling (analysed first in the
+        # warm-process world) is another variant over the very same names
+        t = g.choice(["m.v1", "m.v2"])
+        cols = g.choice([["d1"], ["d1", "d2"], ["*"]])
+        define = f"CREATE TABLE {t} AS SELECT " + (", ".join(f"a{i} AS {c}" for i, c in enumerate(cols)) if cols != ["*"] else "*") + " FROM m.src"
+        c0 = cols[0]
+
+        def variant(k):
+            if k == 0:
+                return [define]
+            if k == 1:
+                return [define, f"INSERT INTO m.out SELECT {c0} FROM {t}"]
+            if k == 2:
+                return [define, f"SELECT q.x FROM (SELECT {c0 if c0 != '*' else 'zz'} AS x FROM {t}) q"]
+            if k == 3:
+                return [define, f"INSERT INTO m.out SELECT q.x FROM (SELECT {c0 if c0 != '*' else 'zz'} AS x, {cols[-1] if cols[-1] != '*' else 'yy'} AS y FROM {t}) q"]
+            return [define, f"INSERT INTO m.out SELECT * FROM {t}", f"INSERT INTO m.out2 SELECT * FROM m.out"]
+
+        ks = g.sample(range(5), 2)
+        sql = ";\n".join(variant(ks[0]))
+        inp = {"sql": sql, "dialect": dialect, "meta": None, "cfg": {}, "silent": False, "src": "risky:" + kind}
+        inp["sibling"] = {"sql": ";\n".join(variant(ks[1])), "dialect": dialect, "meta": None, "cfg": {}, "silent": False, "src": "sibling"}
+        return inp
     elif kind == "many_tables":
         n = g.choice([4, 6, 8])
         tabs = [f"m.j{i}" for i in range(n)]
@@ -257,7 +293,12 @@ def generated_inputs(seed: int, n: int) -> list[dict]:
         sg = ScriptGen(g, f"g{i}")
         sql = ";\n".join(sg.script(g.choice([2, 3, 4, 5])))
         meta = dict(BASE_META) if g.random() < 0.6 else None
-        out.append({"sql": sql, "dialect": g.choice(["ansi", "ansi", "non-validating"]), "meta": meta, "cfg": {}, "silent": False, "src": "generated"})
+        dialect = g.choice(["ansi", "ansi", "non-validating"])
+        # a sibling script over the SAME names (same tag) but a different shape: analysed first in the warm-process world
+        g2 = stream(seed, f"c11-gen-{i}-sibling")
+        sib = ";\n".join(ScriptGen(g2, f"g{i}").script(g2.choice([2, 3, 4])))
+        out.append({"sql": sql, "dialect": dialect, "meta": meta, "cfg": {}, "silent": False, "src": "generated",
+                    "sibling": {"sql": sib, "dialect": dialect, "meta": meta, "cfg": {}, "silent": False, "src": "sibling"}})
     return out
 
 
@@ -317,9 +358,19 @@ def search(pool, tier: str, seed: int, deadline: float, agg: Agg) -> None:
             if tier == "quick" and hi >= (1 if heavy else 2):
                 continue  # quick: permuted accessor programs under the first hash seeds only
             worlds.append({"hash_seed": h, "prog": accessor_program(g)})
+        if not heavy:
+            pre = []
+            if inp.get("sibling"):
+                pre.append(inp["sibling"])
+            pre += [{k: v for k, v in x.items() if k != "sibling"} for x in inputs[max(0, ci - 2):ci]]
+            if g.random() < 0.3:
+                pre.append({k: v for k, v in inp.items() if k != "sibling"})  # plain repetition in one process
+            if pre:
+                worlds.append({"hash_seed": hs[0], "prog": canonical, "prelude": pre})
+        inp = {k: v for k, v in inp.items() if k != "sibling"}
         cases.append({"input": inp, "worlds": worlds})
         for wi, w in enumerate(worlds):
-            jobs.append(job(mod, {"hash_seed": w["hash_seed"]}, [{"input": inp, "prog": w["prog"]}], 240.0))
+            jobs.append(job(mod, {"hash_seed": w["hash_seed"]}, [{"input": inp, "prog": w["prog"], "prelude": w.get("prelude")}], 240.0))
             where.append((ci, wi))
     agg.planned = len(cases)
     got: dict[int, dict[int, dict]] = {}
@@ -384,6 +435,12 @@ def shrink_candidates(spec: dict) -> list[dict]:
             for k in range(len(w["prog"])):
                 s = json.loads(json.dumps(spec))
                 del s["worlds"][wi]["prog"][k]
+                out.append(s)
+    for wi, w in enumerate(spec["worlds"]):
+        if w.get("prelude") and len(w["prelude"]) > 1:
+            for k in range(len(w["prelude"])):
+                s = json.loads(json.dumps(spec))
+                del s["worlds"][wi]["prelude"][k]
                 out.append(s)
     if inp.get("meta"):
         for t in list(inp["meta"]):
